@@ -216,10 +216,12 @@ def main(tier):
         jobs += [(job_ctor_equiv, (m, n, nb, it)) for m in ('lin', 'sin') for n in (6, 9) for nb in (1, 3) for it in (1, 2, 3)]
         jobs += [(job_end_to_end, (m, n, nb, it, p)) for m in ('lin', 'sin') for n in (6, 9) for nb in (1, 2) for it in (1, 2, 4) for p in PS]
         jobs += [(job_queue, (6, 2, L)) for L in (1, 2, 3)] + [(job_calcmod, (6, 2))]
+    import mainloop
+    jobs += mainloop.jobs_for('C19', tier)
     chk.bounds = {'constructor equivalence': 'symbolic angle in (0,1/2) / V>1000, 0<=V0<V, f_RF, revolution part, modulation increment; grids 8 (6, 9), 1-3 bunches', 'queue': 'queue of 3 symbolic (phase, amplitude) entries, 1-3 applies, flush, one more apply',
                   'zero amplitude': '4 steps = 8 noise draws, arbitrary finite floats (IEEE theory)', 'end to end': 'two concrete parameter sets per model, executed from IR in IEEE arithmetic'}
     chk.assumptions = ['KickMap::updateSM / KickMap::apply are stubbed to no-ops in the constructor-equivalence and queue runs (the table is a function of the displacement field only: C01/C02/C08)',
-                       'tanf/sinf/asinf/sqrt are uninterpreted functions in the real-domain runs (same symbol in both maps)', 'records across output flushes in main\'s loop (C19-C) and noise statistics are outside this check']
+                       'tanf/sinf/asinf/sqrt are uninterpreted functions in the real-domain runs (same symbol in both maps)', 'records across output flushes: over all paths of main\'s loop (<= 2/3 iterations) every output block and the epilogue flush the record right after getPastModulation and the last flush follows the last RF apply; noise statistics are outside']
     chk.stubs = ['normal_distribution::operator(): fresh real / fresh finite float per draw', 'random_device: fixed seed', 'updateSM, KickMap::apply: no-op (where stated)']
     chk.replayer = replayer(bld)
     chk.add(run_jobs(jobs, budget=900 if tier == 'quick' else 3000))
